@@ -58,6 +58,9 @@ type Query struct {
 	// OnlyNilErrorReturns (with ExitIsTarget): only returns that may yield a nil error
 	// count (returns whose last result is syntactically a non-nil error value are skipped).
 	OnlyNilErrorReturns bool
+	// StrictOK: a barrier call that appears directly as a result of a return statement does
+	// NOT count as passed (used when the target is that very return and carries data).
+	StrictOK bool
 }
 
 type Hit struct {
@@ -328,6 +331,11 @@ func (s *Scope) Run(q Query) QResult {
 		for _, top := range b.Nodes {
 			events(top, func(sub ast.Node) {
 				if q.Start != nil && q.Start(sub, top) {
+					// an event that is both Target and Start (loop progress queries) is
+					// judged as a target first, then restarts the query
+					if cur.started && cur.kind != stPassed && q.Target != nil && q.Target(sub, top) {
+						report(sub, "target reached without passing the barrier")
+					}
 					cur.started = true
 					cur.kind = stClear
 					cur.obj = nil
@@ -351,7 +359,7 @@ func (s *Scope) Run(q Query) QResult {
 						cur.kind, cur.obj = stPassed, nil
 						return
 					}
-					if rs, ok := top.(*ast.ReturnStmt); ok {
+					if rs, ok := top.(*ast.ReturnStmt); ok && !q.StrictOK {
 						for _, r := range rs.Results {
 							if unparen(r) == ast.Expr(call) {
 								cur.kind, cur.obj = stPassed, nil // error handed to the caller
@@ -389,6 +397,9 @@ func (s *Scope) Run(q Query) QResult {
 			}
 		}
 		if len(b.Succs) == 0 {
+			if b.Kind == cfg.KindSelectAfterCase {
+				continue // a select without default blocks until a case is ready: not an exit
+			}
 			if !endsInReturn && !endsNoReturn && q.ExitIsTarget && cur.started && cur.kind != stPassed {
 				report(s.Body, "end of function reached without passing the barrier")
 			}
